@@ -37,6 +37,7 @@ def stages():
         inp = [({a.major: n for a, n in s.solution.items()}, list(s.added), s.score, dict(s.cn_solution.solution), s.cn_solution.score)
                for s in major_sols]
         res = o_minor(gene, coverage, major_sols, solver, max_solutions, novel)
+        rec["minor_objects"] = {"gene": gene, "coverage": coverage, "majors": list(major_sols), "estimate_minor": o_minor}
         rec["minor"].append({"input": inp, "result": [
             ([(a.major, a.minor, list(a.added), list(a.missing)) for a in s.solution], s.score,
              {a.major: n for a, n in s.major_solution.solution.items()}, list(s.major_solution.added),
